@@ -20,6 +20,7 @@ def stepSvcStart (toks : List String) : Option String :=
       let atts? : Option (List Att) :=
         match kind with
         | "ok" => some [attempt none]
+        | "died" => some [attempt none]
         | "inuse" => some [attempt (some false)]
         | "notavail" => some [attempt (some false)]
         | "namedinuse" => some [attempt (some false)]
@@ -32,7 +33,10 @@ def stepSvcStart (toks : List String) : Option String :=
         let hooks := if hooksRun atts then 1 else 0
         let bound := match r with
           | .started => "all" | .error => "none" | .waiting => "-"
-        some s!"result={r.str} hooks={hooks} bound={bound}"
+        -- a started service that is stopped runs its OnStopped hooks exactly once, also when its
+        -- listeners died in between (NV.SvcStart.stopHooks)
+        let stop := if r = .started then s!" stop={stopHooks true (kind = "died")}" else ""
+        some s!"result={r.str} hooks={hooks} bound={bound}{stop}"
   | _ => none
 
 end NV
